@@ -1206,6 +1206,49 @@ fn wake_send_waiters<T>(waiters: &mut LinkedList<SendWaitQueueEntry<T>>) {''',
 
             last_waiter.state = if self.is_closed { SendPollState::Unregistered } else { SendPollState::SendComplete };''',
      'expect': {'C01': ['C01.P.V'], 'C09': ['C09.R2']}},
+    # ---------------------------------------------------------------- wrapper discipline (.W rules)
+    {'name': 'sem-public-release-twice', 'file': 'src/sync/semaphore.rs',
+     'old': '''    pub fn release(&self, nr_permits: usize) {
+        self.state.lock().release(nr_permits)
+    }
+
+    /// Returns the amount of permits that are available on the semaphore
+    pub fn permits(&self) -> usize {
+        self.state.lock().permits()
+    }
+}
+
+// Export a non thread-safe version using NoopLock''',
+     'new': '''    pub fn release(&self, nr_permits: usize) {
+        let mut state = self.state.lock();
+        state.release(nr_permits);
+        if nr_permits > 8 { state.release(1); }
+    }
+
+    /// Returns the amount of permits that are available on the semaphore
+    pub fn permits(&self) -> usize {
+        self.state.lock().permits()
+    }
+}
+
+// Export a non thread-safe version using NoopLock''',
+     'expect': {'C05': ['C05.W'], 'C06': ['C06.W']}},
+    {'name': 'sem-try-acquire-rounds-up', 'file': 'src/sync/semaphore.rs',
+     'old': '''        if self.state.lock().try_acquire_sync(nr_permits) {
+            Some(GenericSemaphoreReleaser {''',
+     'new': '''        if self.state.lock().try_acquire_sync(nr_permits | 1) {
+            Some(GenericSemaphoreReleaser {''',
+     'expect': {'C05': ['C05.W', 'C05.R4']}},
+    {'name': 'event-set-then-reset-in-wrapper', 'file': 'src/sync/manual_reset_event.rs',
+     'old': '''    pub fn set(&self) {
+        self.inner.lock().set()
+    }''',
+     'new': '''    pub fn set(&self) {
+        let mut g = self.inner.lock();
+        g.set();
+        g.reset();
+    }''',
+     'expect': {'C14': ['C14.W']}},
 ]
 
 ALLP = ['C01','C02','C03','C04','C05','C06','C07','C08','C09','C10','C11','C12','C13','C14','C15','C17','C18','C19','C20']
